@@ -81,8 +81,35 @@ def check_rows(res, what, case, rows, err, exp, mech):
     return True
 
 
+def flush_js(res, node, batch):
+    outs = node.call({'op': 'query_batch', 'cases': [b[3] for b in batch]})['results']
+    for (names, col, style, req), o in zip(batch, outs):
+        res.evaluations += 1
+        res.count('js_lookups')
+        res.count('js_lookups:' + style)
+        case = {'leg': 'js-list', 'names': names, 'col': col, 'query_text': req['query']}
+        err = o['error'] and '%s: %s' % (o['error']['cls'], o['error']['msg'][:100])
+        check_rows(res, 'JS query_table(%r, header %r)' % (req['query'], names), case, o['out'], err, expected(col), 'js-%s' % style)
+    del batch[:]
+
+
 def leg_lists(ns, res, spec):
     rng = random.Random(spec['seed'] * 1299709 + spec['i'])
+    from ..js import bridge
+    node = bridge.Node.start()
+    if node is None:
+        res.notes.append('js_leg: unavailable (no node)')
+    js_batch = []
+    try:
+        _leg_lists(ns, res, spec, rng, node, js_batch)
+        if node is not None and js_batch:
+            flush_js(res, node, js_batch)
+    finally:
+        if node is not None:
+            node.close()
+
+
+def _leg_lists(ns, res, spec, rng, node, js_batch):
     for n in range(spec['n']):
         names = gen_header(rng, allow_newline=True)
         A = unique_table(len(names))
@@ -125,6 +152,17 @@ def leg_lists(ns, res, spec):
                 res.count('direct_mode_lookups')
                 case = {'leg': 'direct', 'names': names, 'col': col, 'query_text': qtext}
                 check_rows(res, 'query_table(%r, header %r, normalize_column_names=False)' % (qtext, names), case, r['rows'], r['error'] and '%s: %s' % (r['error'], r['error_msg']), expected(col), 'direct')
+        # JS twin: a["name"], a['name'], a[`name`], a.name on the JS engine
+        if node is not None and not any('\x00' in x for x in names):
+            for col in range(len(names)):
+                nm = names[col]
+                vs = [('dq', 'a[%s]' % qast.lit(nm, '"')), ('sq', 'a[%s]' % qast.lit(nm, "'")), ('bt', 'a[%s]' % qast.lit(nm, '`').replace('${', '\\${'))]
+                if qast.attr_safe(nm):
+                    vs.append(('attr', 'a.%s' % nm))
+                for style, var in vs:
+                    js_batch.append((names, col, style, {'query': 'select %s, NR' % var, 'input': [list(x) for x in A], 'join': None, 'input_cols': list(names), 'join_cols': None}))
+            if len(js_batch) >= 300:
+                flush_js(res, node, js_batch)
         if n % 199 == 0:
             res.sample({'leg': 'list', 'names': names, 'queries': ['select %s, NR' % v for _s, v in variants(names, 0)]})
 
@@ -322,7 +360,7 @@ def run_shard(spec, res):
 def summarize(tier, seed, m):
     return {
         'rule': 'random headers of 1-5 distinct names over printable ASCII incl. both quotes, backslash, backtick, brackets, #, =, %%, spaces, tab, newline, non-ASCII (and prefix / suffix / case variants of each other; names containing an a.ident / b.ident token excluded as quantified) over tables whose cell (r, c) is the unique token r{r}c{c}; for every column and every spelling (a["..."], a[\'...\'], a.name when identifier-safe, bare name in direct mode) the query `select <var>, NR` must return exactly that column and NR = 1.. ; sources: list column names, pandas columns, sqlite columns, CSV header line (query_csv); WITH (header | noheader | headers | noheaders) x caller flag x {input, input + join} on CSV incl. the command line. distinct_nontrivial = distinct (source, header, column, spelling) lookups.',
-        'required': ['named_target:update', 'named_target:except', 'named_target:joinkey', 'list_lookups', 'list_lookups:dq', 'list_lookups:sq', 'list_lookups:attr', 'direct_mode_lookups', 'pandas_lookups', 'sqlite_lookups', 'csv_lookups', 'with_modifier_runs', 'header_never_data_checks', 'cli_with_modifier_runs'],
+        'required': ['js_lookups', 'js_lookups:bt', 'named_target:update', 'named_target:except', 'named_target:joinkey', 'list_lookups', 'list_lookups:dq', 'list_lookups:sq', 'list_lookups:attr', 'direct_mode_lookups', 'pandas_lookups', 'sqlite_lookups', 'csv_lookups', 'with_modifier_runs', 'header_never_data_checks', 'cli_with_modifier_runs'],
         'assumptions': ['a.name only for names that are not Python / JS keywords and do not collide with members of the record object; direct mode only for names that do not shadow the engine\'s own locals (documented limitations)'],
     }
 
